@@ -596,7 +596,11 @@ func (r *c5Run) derive(p *c5Node) *c5Node {
 			return r.addNode(p.lg.Output(nil), m, fmt.Sprintf("n%d.Output(nil)", p.id))
 		}
 		m.sink = ch.Intn(len(r.sinks))
-		return r.addNode(p.lg.Output(r.sinks[m.sink]), m, fmt.Sprintf("n%d.Output(sink%d)", p.id, m.sink))
+		n := r.addNode(p.lg.Output(r.sinks[m.sink]), m, fmt.Sprintf("n%d.Output(sink%d)", p.id, m.sink))
+		// a logger made by Output owns its context bytes like one made by With(): its owner
+		// may extend them in place (UpdateContext) without touching the logger it came from
+		n.fromWith = true
+		return n
 	case 5:
 		m.ctxID = 1 + ch.Intn(len(r.ctxs)-1)
 		n := r.addNode(p.lg.With().Ctx(r.ctxs[m.ctxID]).Logger(), m, fmt.Sprintf("n%d.With().Ctx(#%d)", p.id, m.ctxID))
